@@ -4,15 +4,15 @@
 
    Records (harness/src/bin/c18.rs).  Every vector starts with a tag word (so that it is never empty).
      18001 READ       ps = [dbg; rk; tcode; has_pre; model; info...]   vs = [13::F; 13::S0; 13::S]
-                      out = [[oc; woc_before; woc_after]; 13::dump_before; 13::dump_after; 15::raw_after]
+                      out = [[oc; woc_before; woc_after; acc]; 13::dump_before; 13::dump_after; 15::raw_after]
      18002 WRITE      ps = [dbg; tcode; hdr...]                         vs = [15::data]           (HAL types)
                       out = [[woc]; 13::bytes]
      18003 ROUNDTRIP  ps = [dbg; rk; tcode; has_prex; model; has_prer]  vs = [13::Fx; 13::SX; 13::Fr; 13::S0]
-                      out = [[woc_x; oc; woc_after]; 13::written; 13::dump_after; 15::raw_after]
+                      out = [[woc_x; oc; woc_after; acc]; 13::written; 13::dump_after; 15::raw_after]
      18004 DIST       ps = [tag; payload]                               out = [[woc; oc; tag'; payload']; 13::bytes]
    F = write_to of the freshly allocated (and filled) object: it fixes the capacities; S0 = an optional first
    stream read into it (so that the current dimensions differ from the capacity); S = the stream under test.
-   dbg = 1: overflow checks on; rk = 1: a reader that delivers 3 bytes per call (partial read_exact);
+   dbg = 1: overflow checks on; rk = 0 Cursor, 1 a reader that delivers 3 bytes per call (partial read_exact), 2 &[u8];
    model = 1: predict with the repaired readers (used to test work/proposed_fixes against a patched tree).
    oc / woc: 0 Ok, 1 Err, 2 panic (of the dump).  18011..18014 / 18031..18035 = single clauses of the oracle
    (same record), used by tools/props/c18.py to name the class of a failure. *)
@@ -69,24 +69,36 @@ Definition schema_of (tcode : Z) : option schema :=
   end.
 
 (* ---------- parser: byte string -> model object whose buffers are exactly the payloads ---------- *)
-Definition parse_flat (k : lkind) (s : bytes) : option (flat * bytes) :=
+(* `alloc_aligned` pads every buffer to a multiple of DEFAULTALIGN = 64 bytes (zero-initialised): the capacity of a
+   freshly allocated object is its payload rounded up (pad = true: F, Fx, Fr of the records) *)
+Definition pad64 (d : bytes) : bytes :=
+  d ++ repeat 0 (Z.to_nat ((64 - blen d mod 64) mod 64)).
+
+Definition parse_flat_p (pad : bool) (k : lkind) (s : bytes) : option (flat * bytes) :=
   match rd_fields (nhdr k) s with
   | None => None
   | Some (h, s1) => match rd 8 s1 with
                     | None => None
                     | Some (len, s2) => if len <=? blen s2 then
                                           match take (Z.to_nat len) s2 with
-                                          | Some (d, s3) => Some ({| fk := k; fh := h; fd := d |}, s3)
+                                          | Some (d, s3) => Some ({| fk := k; fh := h; fd := if pad then pad64 d else d |}, s3)
                                           | None => None
                                           end
                                         else None
                     end
   end.
 
+Definition parse_flat := parse_flat_p false.
+
+Inductive gobj := GF (f : flat) | GW (w : wobj) | GK (k : kseq) | GC (c : cbk) | GB (b : bdd).
+
+Section Parse.
+Variable pad : bool.
+
 Definition parse_wobj (ws : wschema) (s : bytes) : option (wobj * bytes) :=
   match parse_fields (blank_fields (fst ws)) s with
   | None => None
-  | Some (fs, s1) => match parse_flat (snd ws) s1 with
+  | Some (fs, s1) => match parse_flat_p pad (snd ws) s1 with
                      | None => None
                      | Some (b, s2) => Some ({| w_fields := fs; w_body := b |}, s2)
                      end
@@ -172,16 +184,19 @@ Definition parse_bdd (s : bytes) : option (bdd * bytes) :=
     end
   end.
 
-Inductive gobj := GF (f : flat) | GW (w : wobj) | GK (k : kseq) | GC (c : cbk) | GB (b : bdd).
 
-Definition parse_gobj (sc : schema) (s : bytes) : option gobj :=
+Definition parse_gobj_p (sc : schema) (s : bytes) : option gobj :=
   match sc with
-  | SF k => match parse_flat k s with Some (f, _) => Some (GF f) | None => None end
+  | SF k => match parse_flat_p pad k s with Some (f, _) => Some (GF f) | None => None end
   | SW w => match parse_wobj w s with Some (x, _) => Some (GW x) | None => None end
   | SK pre w => match parse_kseq pre w s with Some (x, _) => Some (GK x) | None => None end
   | SC => match parse_cbk s with Some (x, _) => Some (GC x) | None => None end
   | SB => match parse_bdd s with Some (x, _) => Some (GB x) | None => None end
   end.
+End Parse.
+
+Definition parse_fresh := parse_gobj_p true.      (* F: buffers padded to the allocation size *)
+Definition parse_gobj := parse_gobj_p false.      (* dumps: buffers = active bytes *)
 
 (* ---------- generic read / dump ---------- *)
 Definition read_gobj (fixedm : bool) (dbg partial : bool) (g : gobj) (s : bytes) : outcome * gobj :=
@@ -211,11 +226,11 @@ Definition pre_read (fixedm dbg partial has : bool) (g : gobj) (s0 : bytes) : op
   else Some g.
 
 Definition run_read (ps : list Z) (vs : list (list Z)) : option (list (list Z)) :=
-  let dbg := b2 (p ps 0) in let partial := b2 (p ps 1) in let fixedm := b2 (p ps 4) in
+  let dbg := b2 (p ps 0) in let partial := (p ps 1 =? 1) in let fixedm := b2 (p ps 4) in
   match schema_of (p ps 2) with
   | None => None
   | Some sc =>
-    match parse_gobj sc (v vs 0) with
+    match parse_fresh sc (v vs 0) with
     | None => None
     | Some g0 =>
       match pre_read fixedm dbg partial (b2 (p ps 3)) g0 (v vs 1) with
@@ -225,7 +240,7 @@ Definition run_read (ps : list Z) (vs : list (list Z)) : option (list (list Z)) 
         let '(oc, g2) := read_gobj fixedm dbg partial g1 (v vs 2) in
         if is_panic oc then None
         else let '(wa, da) := dump_gobj dbg g2 in
-             Some [[outcome_code oc; outcome_code wb; outcome_code wa]; 13 :: db; 13 :: da; 15 :: raw_gobj g2]
+             Some [[outcome_code oc; outcome_code wb; outcome_code wa; 1]; 13 :: db; 13 :: da; 15 :: raw_gobj g2]
       end
     end
   end.
@@ -241,11 +256,11 @@ Definition run_write (ps : list Z) (vs : list (list Z)) : option (list (list Z))
   end.
 
 Definition run_roundtrip (ps : list Z) (vs : list (list Z)) : option (list (list Z)) :=
-  let dbg := b2 (p ps 0) in let partial := b2 (p ps 1) in let fixedm := b2 (p ps 4) in
+  let dbg := b2 (p ps 0) in let partial := (p ps 1 =? 1) in let fixedm := b2 (p ps 4) in
   match schema_of (p ps 2) with
   | None => None
   | Some sc =>
-    match parse_gobj sc (v vs 0), parse_gobj sc (v vs 2) with
+    match parse_fresh sc (v vs 0), parse_fresh sc (v vs 2) with
     | Some x0, Some r0 =>
       match pre_read fixedm dbg partial (b2 (p ps 3)) x0 (v vs 1), pre_read fixedm dbg partial (b2 (p ps 5)) r0 (v vs 3) with
       | Some x, Some r =>
@@ -253,7 +268,7 @@ Definition run_roundtrip (ps : list Z) (vs : list (list Z)) : option (list (list
         let '(oc, r') := read_gobj fixedm dbg partial r sx in
         if is_panic oc then None
         else let '(wa, da) := dump_gobj dbg r' in
-             Some [[outcome_code wx; outcome_code oc; outcome_code wa]; 13 :: sx; 13 :: da; 15 :: raw_gobj r']
+             Some [[outcome_code wx; outcome_code oc; outcome_code wa; 1]; 13 :: sx; 13 :: da; 15 :: raw_gobj r']
       | _, _ => None
       end
     | _, _ => None
@@ -373,7 +388,7 @@ Definition oracle_read (sel : Z) (ps : list Z) (vs outs : list (list Z)) : Z :=
   match schema_of (p ps 2) with
   | None => 2
   | Some sc =>
-    match parse_gobj sc (v vs 0) with
+    match parse_fresh sc (v vs 0) with
     | None => 2
     | Some g0 =>
       let caps := caps_of g0 in
@@ -399,7 +414,7 @@ Definition oracle_roundtrip (sel : Z) (ps : list Z) (vs outs : list (list Z)) : 
   match schema_of (p ps 2) with
   | None => 2
   | Some sc =>
-    match parse_gobj sc (v vs 0), parse_gobj sc (v vs 2) with
+    match parse_fresh sc (v vs 0), parse_fresh sc (v vs 2) with
     | Some x0, Some r0 =>
       let st := nth 0 outs [] in
       let wx := nth 0 st 9 in let oc := nth 1 st 9 in let wa := nth 2 st 9 in
